@@ -23,7 +23,7 @@ def has_priority_over_table(repo, run, rule):
         for b in PRIOS:
             for ie in (False, True):
                 me, ot = node_obj('self', _priority=a), node_obj('other', _priority=b)
-                f = FDE(repo, inline={'notnone_or'})
+                f = FDE(repo)
                 r = fde_guard(lambda: f.call(fi, me, ot, if_equal=ie))
                 rows += 1
                 exp = ie if P(a) == P(b) else P(a) > P(b)
@@ -57,7 +57,7 @@ def leaf_winner_table(repo, run, rule):
     for a in PRIOS:
         for b in PRIOS:
             me, ot = node_obj('self', _priority=a), node_obj('other', _priority=b)
-            f = FDE(repo, inline={'notnone_or', 'has_priority_over'})
+            f = FDE(repo, stubs={'_replace_self', '_replace_other'})
             r = fde_guard(lambda: f.call(fi, me, ot and 'p', ot) if False else f.call(fi, me, 'p', ot))
             rows += 1
             exp = 'self' if P(a) > P(b) else 'other'
@@ -92,7 +92,7 @@ def composed_winner_table(repo, run, rule):
     for a in PRIOS:
         for b in PRIOS:
             me, ot = node_obj('self', 'ComposedNode', _priority=a), node_obj('other', 'ComposedNode', _priority=b)
-            f = FDE(repo, inline={'notnone_or', 'has_priority_over'})
+            f = FDE(repo, stubs={'_replace_self', '_replace_other'})
             f.effects = []
             fde_guard(lambda: f._run([stmt], {'self': me, 'other': ot, 'path': 'p'}, fi))
             rows += 1
@@ -133,7 +133,7 @@ def survivor_fields(repo, run, rule):
         for b in PRIOS:
             for fi in (rs, ro):
                 me, ot = node_obj('self', _priority=a), node_obj('other', _priority=b)
-                f = FDE(repo, inline={'notnone_or'})
+                f = FDE(repo)
                 fde_guard(lambda: f.call(fi, me, ot, allow_promotions=False))
                 exp = b if fi is rs else a
                 if me.f['_priority'] != exp:
@@ -147,7 +147,7 @@ def survivor_fields(repo, run, rule):
     # metadata spread order
     for fi, winner in ((rs, 'other'), (ro, 'self')):
         me, ot = node_obj('self'), node_obj('other')
-        f = FDE(repo, inline={'notnone_or'})
+        f = FDE(repo)
         fde_guard(lambda: f.call(fi, me, ot, allow_promotions=False))
         md = me.f['_metadata']
         okk = isinstance(md, tuple) and md[0] == 'dictdisplay' and len(md[1]) == 2 and all(p[0] == 'spread' for p in md[1])
@@ -504,7 +504,7 @@ def delete_resolution(repo, run, rule):
         for d in F3:
             for i in F3:
                 o = node_obj('n', cls, _delete=d, _implicit_delete=i)
-                f = FDE(repo, inline={'notnone_or'})
+                f = FDE(repo)
                 v = fde_guard(lambda: f.getter(o, 'delete'))
                 rows += 1
                 exp = d if d is not None else (i if i is not None else dflt)
@@ -539,3 +539,43 @@ def child_kwargs_keys(repo, run, rule):
         run.violation(rule, gk, '_get_child_kwargs keys %s' % sorted(keys), 'implicit flags %s are no longer handed to adopted children' % sorted(want - keys))
     else:
         run.ok(rule, gk, '_get_child_kwargs hands out exactly implicit_delete / implicit_allow_new / implicit_safe')
+
+
+def propagation_table(repo, run, rule, flag):
+    """inherited flags reach the children: for a container without an explicit <flag> whose inherited
+    <flag> is v (not None), _propagate_implicit_values leaves every child with implicit <flag> == v
+    (safe: an already-False child stays False), whatever the other explicit / inherited flags are, and
+    recurses into a child whose flags changed."""
+    fi = repo.func('ComposedNode._propagate_implicit_values')
+    flags = ['delete', 'allow_new', 'safe']
+    others = [f for f in flags if f != flag]
+    bad = []
+    rows = 0
+    for exp in product_dicts(**{'_' + f: F3 for f in others}):
+        for v in (True, False):
+            for oi in product_dicts(**{'_implicit_' + f: F3 for f in others}):
+                for cv in F3:
+                    child = node_obj('child', 'ConfigNode', **{'_implicit_' + flag: cv})
+                    before = dict(child.f)
+                    parent = node_obj('parent', 'ComposedNode', _children={'k': child}, **{'_' + flag: None, '_implicit_' + flag: v}, **exp, **oi)
+                    f = FDE(repo)
+                    r = fde_guard(lambda: f.call(fi, parent))
+                    rows += 1
+                    got = child.f['_implicit_' + flag]
+                    want = v if not (flag == 'safe' and cv is False) else False
+                    if got is not want:
+                        bad.append((dict(exp), v, dict(oi), cv, got, want))
+                    changed = any(child.f[k] != before[k] for k in before if k.startswith('_implicit_'))
+                    rec = any(e[0] == 'call' and e[1] == '_propagate_implicit_values' and getattr(e[2], 'name', None) == 'child' for e in r.effects)
+                    if changed and not rec:
+                        bad.append(('no recursion into changed child', dict(exp), v, cv))
+    run.table(rule + ':propagate:' + flag, rows, '_propagate_implicit_values: parent explicit others x inherited %s x other inherited x child inherited %s' % (flag, flag))
+    if bad:
+        b = bad[0]
+        if b[0] == 'no recursion into changed child':
+            msg = 'a child whose inherited flags changed is not propagated into (%s)' % (b[1:],)
+        else:
+            msg = 'container with explicit flags %s, no explicit %s and inherited %s=%r (other inherited %s): child inherited %s %r stays/becomes %r, expected %r - the inherited flag does not reach the descendants' % (b[0], flag, flag, b[1], b[2], flag, b[3], b[4], b[5])
+        run.violation(rule, fi, '_propagate_implicit_values / ' + flag, msg, witness=bad[:5])
+    else:
+        run.ok(rule, fi, '_propagate_implicit_values hands inherited %s to children (%d rows)' % (flag, rows), 'independent of other explicit flags; recursion on change')
